@@ -8,6 +8,12 @@ from .core import *
 from .interp_expr import Frame
 
 
+PURE_DYN_METHODS_ = {'get', 'keys', 'values', 'items', 'currencies', 'get_currency_units', 'is_empty', 'lower', 'upper',
+                     'strip', 'quantize', 'weekday', 'isoweekday', 'isocalendar', 'date', 'get_positions', 'copy',
+                     'split', 'rstrip', 'lstrip', 'startswith', 'endswith', 'format', 'group', 'total_seconds', 'strftime',
+                     'to_string', 'as_tuple', 'is_zero', 'build', 'join', 'reduce'}
+
+
 class ClassInfo:
     def __init__(self, qual, mod, node):
         self.qual, self.mod, self.node = qual, mod, node
@@ -85,7 +91,14 @@ class CallMixin:
                 args = [self.eval(fr, a) for a in node.args]
                 kw = {k.arg: self.eval(fr, k.value) for k in node.keywords}
                 return self.seq_method(fr, recv, node.func.attr, args, kw, node.func.value, node)
-            f = self.getattr(fr, recv, node.func.attr, node.func)
+            if isinstance(recv, SDyn) and not recv.callable and node.func.attr in PURE_DYN_METHODS_:
+                ln = getattr(node, 'lineno', None)
+                if not self.specmode and not isinstance(recv.shape, (S.Rec, S.Opaque)):
+                    if self.branch(Val.is_VNone(recv.t)):
+                        raise PyRaise('AttributeError', ln, f"'NoneType' object has no attribute '{node.func.attr}'")
+                f = SBuiltin('dynmeth!' + node.func.attr, recv)
+            else:
+                f = self.getattr(fr, recv, node.func.attr, node.func)
         else:
             f = self.eval(fr, node.func)
         args = []
@@ -492,9 +505,10 @@ class CallMixin:
         seq = self.as_seq(it)
         if gen.ifs:
             raise Unsupported('filtered comprehension over a symbolic sequence')
-        # map: fresh sequence r with len(r) == len(seq) and r[j] == elt(seq[j]) for all j
+        # map: r = MAP_k(seq, captured...) with len(r) == len(seq) and r[j] == elt(seq[j]) for all j.
+        # The symbol depends only on the element expression (target renamed) so that the same
+        # comprehension written in code and in a specification denotes the same term.
         j = z3.Int(self.fresh('j'))
-        r = z3.Const(self.fresh('map'), SeqV)
         nfr = Frame(dict(fr.env), fr.mod, fr.func, fr.cls, fr.closure)
         elem = self.from_val(seq.t[j], seq.elem) if seq.elem is not None else SDyn(seq.t[j])
         self.assign(nfr, gen.target, elem)
@@ -503,8 +517,29 @@ class CallMixin:
             body = self.eval(nfr, node.elt)
         finally:
             self.specmode -= 1
-        if not self.d.elt_is_total(node.elt):
-            raise Unsupported('comprehension element may raise (only pure total element expressions are mapped)')
+        tnames = {n.id for n in ast.walk(gen.target) if isinstance(n, ast.Name)}
+        free = sorted({n.id for n in ast.walk(node.elt) if isinstance(n, ast.Name)} - tnames)
+        r = None
+        if isinstance(gen.target, ast.Name):
+            class _Ren(ast.NodeTransformer):
+                def visit_Name(self, n):
+                    return ast.Name(id='_x', ctx=n.ctx) if n.id in tnames else n
+            import copy as _copy, hashlib as _hl
+            dumped = ast.dump(_Ren().visit(_copy.deepcopy(node.elt)))
+            caps = []
+            try:
+                for nm in free:
+                    v = self.lookup(nfr, nm)
+                    if isinstance(v, (SBuiltin, SSpecFn, SModule, SFunc, SClass)):
+                        continue
+                    caps.append(self.to_val(v))
+                key = 'MAP_' + _hl.sha1((dumped + kind).encode()).hexdigest()[:10]
+                F = uf(key + f'_{len(caps)}', SeqV, *([Val] * len(caps)), SeqV)
+                r = F(seq.t, *caps)
+            except Unsupported:
+                r = None
+        if r is None:
+            r = z3.Const(self.fresh('map'), SeqV)
         self.assume(z3.Length(r) == z3.Length(seq.t))
         self.assume(z3.ForAll([j], z3.Implies(z3.And(j >= 0, j < z3.Length(seq.t)), r[j] == self.to_val(body))))
         return SSeq(r, kind)
